@@ -136,6 +136,29 @@ func (ex *Exec) takeIf(fr *frame, b *ssa.BasicBlock, c *Term) {
 			if !ok {
 				break
 			}
+			// identical incoming values (any type) need no merging
+			{
+				var first Val
+				same := true
+				for i, e := range g.ex {
+					var v Val
+					for pi, p := range g.target.Preds {
+						if p == e.pred {
+							v = ex.get(fr, phi.Edges[pi])
+						}
+					}
+					if i == 0 {
+						first = v
+					} else if !sameVal(first, v) {
+						same = false
+						break
+					}
+				}
+				if same {
+					phis[phi] = first
+					continue
+				}
+			}
 			var merged *Term
 			for i := len(g.ex) - 1; i >= 0; i-- {
 				e := g.ex[i]
@@ -188,4 +211,45 @@ func (ex *Exec) takeIf(fr *frame, b *ssa.BasicBlock, c *Term) {
 	a := alts[choice]
 	fr.prev, fr.block = a.pred, a.target
 	fr.phiOverride = a.phis
+}
+
+// sameVal: cheap identity test used when merging phi inputs of arbitrary type.
+func sameVal(a, b Val) bool {
+	switch x := a.(type) {
+	case *Term:
+		y, ok := b.(*Term)
+		return ok && x == y
+	case *PtrV:
+		y, ok := b.(*PtrV)
+		return ok && x.o == y.o
+	case *SliceV:
+		y, ok := b.(*SliceV)
+		if !ok {
+			return false
+		}
+		if x == y {
+			return true
+		}
+		if x.len != y.len || x.off != y.off || x.cap != y.cap || len(x.arr) != len(y.arr) {
+			return false
+		}
+		return len(x.arr) == 0 || &x.arr[0] == &y.arr[0]
+	case *StrV:
+		y, ok := b.(*StrV)
+		if !ok || len(x.b) != len(y.b) {
+			return false
+		}
+		for i := range x.b {
+			if x.b[i] != y.b[i] {
+				return false
+			}
+		}
+		return true
+	case *FuncV:
+		y, ok := b.(*FuncV)
+		return ok && x == y
+	case nil:
+		return b == nil
+	}
+	return false
 }
